@@ -120,7 +120,7 @@ func (s cliScript) device(login ...bool) *devsim.CLI {
 		if mode == "login" {
 			return devsim.Reply{Ask: &devsim.Ask{Prompt: "Password: ", Then: func(pw string) devsim.Reply {
 				if line == sshUser && pw == sshPw {
-					return devsim.Reply{NewMode: "exec", Out: []devsim.Token{devsim.T("last login: never" + d.NL)}}
+					return devsim.Reply{NewMode: "exec", Out: []devsim.Token{devsim.T("welcome back, session 7 opened" + d.NL)}}
 				}
 				return devsim.Reply{Out: []devsim.Token{devsim.T("access denied" + d.NL)}}
 			}}}
